@@ -1,7 +1,7 @@
 #!/usr/bin/env python3
 """Confirm a seeded breaking change and run the checks against it.
 
-usage: [SEED_SRC=/tmp/seed_out2 SEED_WT_PREFIX=/tmp/seed2_ SEED_VERIF=<snapshot of /verif>] seed_eval.py C06_A [--no-suite]
+usage: [SEED_SRC=/tmp/seed_out2 SEED_WT_PREFIX=/tmp/seed2_ SEED_VERIF=<snapshot of /verif>] seed_eval.py C06_A [--no-suite] [--own-only]
 
 1. in the scratch worktree /tmp/seed_<ID>: demo passes on the clean checkout, fails with the patch, and the pinned
    suite's stable tests still pass with the patch (tools/baseline_check.py);
@@ -49,7 +49,7 @@ try:
     meta["demo_patched_exit"] = rc1
     meta["demo_patched_tail"] = t1[-300:]
     if "--no-suite" not in sys.argv:
-        b = sh(f"python3 /verif/tools/baseline_check.py {wt} -n 6")
+        b = sh(f"python3 /verif/tools/baseline_check.py {wt} -n 4")
         meta["suite"] = b.stdout.strip().splitlines()[:3]
         meta["suite_ok"] = b.returncode == 0
     elif (out / "meta.json").exists():
@@ -61,15 +61,30 @@ try:
 finally:
     sh(f"git -C {wt} checkout -- .")
 print("demo clean/patched:", rc0, meta.get("demo_patched_exit"), "suite_ok:", meta.get("suite_ok"))
-# ---- checks against /repo
-assert sh("git -C /repo status --porcelain").stdout.strip() == "", "/repo not clean"
-r = sh(f"git -C /repo apply {src/'patch.diff'}")
-assert r.returncode == 0, r.stderr
+# ---- checks against /repo (or, with --checks-from FILE, the recorded outcome of the own property's quick command run on a scratch worktree of /repo HEAD
+#      with the patch applied: lines "<name> own=<Cnn> exit=<rc> <count rule;>..." as printed by the evaluation drivers)
 results = {}
+checks_from = sys.argv[sys.argv.index("--checks-from") + 1] if "--checks-from" in sys.argv else None
+if checks_from:
+    import re
+    for ln in open(checks_from):
+        m = re.match(rf"{name} own=(C\d\d) exit=(\d+)\s*(.*)", ln.strip())
+        if m:
+            rules = sorted(set(re.findall(r"(C\d\d\.[a-z0-9-]+)", m.group(3))))
+            results[m.group(1)] = {"exit": int(m.group(2)), "rules": rules, "violations": None, "ran_on": "scratch worktree of /repo HEAD with the patch applied"}
+    assert prop in results, f"no recorded result for {name}"
+else:
+    assert sh("git -C /repo status --porcelain").stdout.strip() == "", "/repo not clean"
+    r = sh(f"git -C /repo apply {src/'patch.diff'}")
+    assert r.returncode == 0, r.stderr
 try:
+    if checks_from:
+        raise StopIteration
     procs = {}
     for n in range(1, 21):
         pid = f"C{n:02d}"
+        if "--own-only" in sys.argv and pid != prop:
+            continue
         env = dict(os.environ, VERIF_NO_EVIDENCE="1", VERIF_OUT=f"/tmp/seed_eval_out/{name}")
         procs[pid] = subprocess.Popen([PY, "-m", "verifstat", "check", pid], cwd=os.environ.get("SEED_VERIF", "/verif"), env=env, stdout=subprocess.PIPE, stderr=subprocess.STDOUT, text=True)
     for pid, p in procs.items():
@@ -78,8 +93,11 @@ try:
         results[pid] = {"exit": p.returncode, "rules": rules, "violations": sum(1 for ln in text.splitlines() if ln.startswith("VIOLATION"))}
         if p.returncode == 2:
             results[pid]["error"] = [ln for ln in text.splitlines() if "ANALYSIS-ERROR" in ln][:1]
+except StopIteration:
+    pass
 finally:
-    sh("git -C /repo checkout -- .")
+    if not checks_from:
+        sh("git -C /repo checkout -- .")
     shutil.rmtree(f"/tmp/seed_eval_out/{name}", ignore_errors=True)
 caught = {k: v for k, v in results.items() if v["exit"] == 1}
 errs = {k: v for k, v in results.items() if v["exit"] == 2}
@@ -95,7 +113,7 @@ if confirmed:
         if (src / f).exists():
             shutil.copy(src / f, out / f)
     meta["what_i_ran"] = ["demo.py on the clean scratch worktree (exit 0) and with the patch (non-zero)", "tools/baseline_check.py on the patched worktree (795 stable tests)",
-                          "git -C /repo apply patch.diff; every check's quick command; git -C /repo checkout -- ."]
+                          "git -C /repo apply patch.diff; " + ("the quick command of the seed's own property" if "--own-only" in sys.argv else "every check's quick command") + "; git -C /repo checkout -- ."]
     (out / "meta.json").write_text(json.dumps(meta, indent=1))
     print("saved", out)
 else:
